@@ -30,6 +30,22 @@ fn replay(prop: &str, case: &Value, rep: &mut Report) {
     let mut rng = gen::rng(1, 0, 99);
     let kind = case["kind"].as_str().unwrap_or("");
     match (prop, kind) {
+        ("c01", "c01-line") => {
+            let p = pos_of(case);
+            let moves: Vec<String> = case["moves"].as_array().map(|a| a.iter().filter_map(|v| v.as_str().map(|s| s.to_string())).collect()).unwrap_or_default();
+            let mut end = p.clone();
+            for u in &moves { end = end.make(refchess::Mv::from_uci(u).unwrap()); }
+            let want: std::collections::BTreeSet<String> = end.legal_moves().iter().map(|m| m.uci()).collect();
+            let r = monlib::guarded_mut(|| {
+                let mut bb = adapter::load(&p)?;
+                bb.make_all_uci(&moves).map_err(|e| format!("{:?}", e))?;
+                Ok::<_, String>(bb.generate_legal_moves().iter().map(|m| m.to_uci_string()).collect::<std::collections::BTreeSet<_>>())
+            });
+            match r {
+                Ok(Ok(got)) if got == want => {}
+                other => rep.violation("after-make_all_uci-line", format!("{:?} expected {:?}", other, want), case.clone()),
+            }
+        }
         ("c01", _) => c01::check(&pos_of(case), rep, &mut rng, 1, case["perft"].as_u64().unwrap_or(2) as usize),
         ("c02", _) => c02::check(&pos_of(case), rep, &mut rng),
         ("c03", "c03-line") => {
@@ -52,9 +68,24 @@ fn replay(prop: &str, case: &Value, rep: &mut Report) {
             }
             c03::check(&p, rep, &mut rng);
         }
+        ("c03", "c03-rollback") => {
+            let p = pos_of(case);
+            let moves: Vec<String> = case["moves"].as_array().map(|a| a.iter().filter_map(|v| v.as_str().map(|s| s.to_string())).collect()).unwrap_or_default();
+            let r = monlib::guarded_mut(|| {
+                let mut bb = adapter::load(&p)?;
+                let before = adapter::snap(&bb);
+                let ok = bb.make_all_uci(&moves).is_ok();
+                Ok::<_, String>((ok, before.diff(&adapter::snap(&bb))))
+            });
+            match r {
+                Ok(Ok((false, d))) if d.is_empty() => {}
+                other => rep.violation("line-not-restored-by-rollback", format!("{:?}", other), case.clone()),
+            }
+        }
         ("c03", _) => c03::check(&pos_of(case), rep, &mut rng),
         ("c04", _) => c04::replay(case, rep),
         ("c05", _) => c05::check(&pos_of(case), rep, &mut rng),
+        ("c06", "c06-keys") => c06::key_table(rep),
         ("c06", "c06-variant") => {
             let mut maps = c06::Maps::default();
             let p = pos_of(case);
@@ -261,6 +292,7 @@ fn main() {
                 }
             });
             rep.add("distinct_position_keys", maps.key_to_hash.len() as u64);
+            if args.shard == 0 { c06::key_table(&mut rep); }
         }
         "c12" => {
             let cfg = StreamCfg { positions: args.budget(200_000, 3_000_000), max_plies: 200, max_half: 4095, max_full: 1_000_000 };
